@@ -393,8 +393,14 @@ def batt_cases(ctx, n_sys, faults):
             # the system was analysed (above) and is then edited: batt_life must see the edited system
             try:
                 drv_solve.move_leaf(s, rng)
+                with warnings.catch_warnings():
+                    warnings.simplefilter("ignore")
+                    df = s.solve()
+                ib = max(float(x) for x in df[df["Component"] == bat]["Iout (A)"].values)
             except Exception:
-                pass
+                continue
+            if not (ib > 1e-7):
+                continue        # the battery no longer supplies anything: its capacity would never run out (outside C18)
         n += 1
         v0 = abs(s._g[s._get_index(bat)]._params["vo"]) * rng.uniform(0.9, 1.15)
         r0 = rng.choice([0.0, 0.05, 0.3])
